@@ -377,3 +377,31 @@ func VerifH_C16_AbandonedFallbackThenNext() {
 // live, carries the caller's ID and is the reply that was sent; a truncated one is never returned (scenario of
 // C16_ReplyShapes under the ownership ghosts).
 func VerifH_C05_FallbackKeepsReplyOwnership() { VerifH_C16_ReplyShapes() }
+
+// VerifH_C16_EveryTruncatedReplyIsRetried: "WHENEVER the UDP reply has the TC flag set" — also the tenth time, and also
+// after every earlier TCP attempt failed: twelve exchanges in a row through one plain upstream, every UDP reply
+// truncated, every TCP attempt failing: each exchange makes its own TCP attempt to the same server and returns that
+// attempt's error; none is left waiting (no deadline is set), none skips the TCP leg.
+func VerifH_C16_EveryTruncatedReplyIsRetried() {
+	verifrt.Unwind(800)
+	verifrt.SchedBound(0)
+	verifrt.NoTimers()
+	verifrt.CtxNoExpiry = true
+	tcpDials := 0
+	verifrt.Redirect("(*net.Dialer).DialContext", func(d *net.Dialer, ctx context.Context, network, address string) (net.Conn, error) {
+		if network == "udp" {
+			return &vTCUDPConn{inbox: make(chan []byte, 4), closed: make(chan struct{}), shape: 1}, nil
+		}
+		tcpDials++
+		return nil, errVLeg
+	})
+	u, err := NewUpstream("udp://192.0.2.7", Opt{})
+	verifrt.Assert(err == nil && u != nil, "upstream built")
+	for i := 0; i < 12; i++ {
+		q := []byte{0x12, byte(i), 0x01, 0x00, 0, 1, 0, 0, 0, 0, 0, 0, 1, 'q', 0, 0, 1, 0, 1}
+		r, err := u.ExchangeContext(context.Background(), q)
+		verifrt.Assert(r == nil && err != nil, "the failing TCP leg is the outcome")
+		verifrt.Assert(tcpDials == i+1, "every truncated reply gets its own TCP attempt")
+	}
+	verifrt.Reach("all-retried")
+}
